@@ -351,6 +351,31 @@ def fault_cases():
     return out
 
 
+def rcp_cases():
+    """pdcp / rpdcp (`_parallel_copy`): the remote stderr goes through the same handler and flush; judged like any
+    stderr stream when it is relayed (rpdcp, or a failed pdcp client); a succeeding pdcp client never reads it"""
+    out = []
+    T = [b"h1", b"h10", b"a.dom"]
+    hx = relay.hexs
+    payloads = [b"", b"pcp: error\n", b"one\ntwo\npartial", b"x" * 70 + b"\n" + b"y" * 2100 + b"\n" + b"t" * 9000,
+                b"100% full\nno %s newline", b"XXRETCODE:3\nmarker is plain text on stderr\n"]
+    k = 0
+    for p in payloads:
+        for popt, rv in ((1, 0), (1, -1), (0, -1), (0, -7)):
+            for labels in (True, False):
+                k += 1
+                i = k % 3
+                chunks = cuts_at(p, [len(p) // 3, len(p) // 2]) if p else []
+                ops = ["rcperr %d e %d %d %s" % (i, popt, rv, " ".join(hx(c) for c in chunks))] + \
+                      ["flush %d" % j for j in range(3)]
+                out.append(explicit(T, labels, False, {(i, "e"): chunks}, ops, ["rcp-stderr"] + ([] if labels else ["-N"])))
+    # a pdcp client that succeeds does not read the remote stderr at all (not judged by the oracle: nothing is relayed)
+    c = explicit(T, True, False, {(1, "e"): [b"ignored\n"]}, ["rcperr 1 e 0 0 " + hx(b"ignored\n")], ["rcp-stderr", "not-read"])
+    c.complete = False
+    out.append(c)
+    return out
+
+
 def pinned_cases(growth, magic, quick):
-    return (fault_cases() + percent_cases() + ring_cases(growth) +line_cases(quick) + growth_cases(growth, quick) + tail_cases() + empty_cases() + burst_cases() +
+    return (rcp_cases() + fault_cases() + percent_cases() + ring_cases(growth) +line_cases(quick) + growth_cases(growth, quick) + tail_cases() + empty_cases() + burst_cases() +
             marker_cases(magic) + label_cases() + eof_order_cases() + two_host_cases(quick))
